@@ -68,7 +68,7 @@ var c05Msg = mkSpace("message", []fieldDim{
 
 type c05Case struct {
 	P      ssoP `json:"p"`
-	Primed bool `json:"primed,omitempty"`
+	Primed int  `json:"primed,omitempty"` // 0 fresh provider | 1 after the genuine counterpart | 2 after the same request
 }
 
 func c05Valid(p ssoP) bool {
@@ -97,18 +97,23 @@ type c05Verdict struct {
 	Class    string
 }
 
-func c05Judge(p ssoP) c05Verdict { return c05JudgePrimed(p, false) }
+func c05Judge(p ssoP) c05Verdict { return c05JudgePrimed(p, 0) }
 
 // c05JudgePrimed: with primed=true the honest counterpart of the (forged) message is sent to the same
 // provider first (event history of depth 2): whatever the IdP remembers about a genuine request must not
 // let a tampered copy through afterwards.
-func c05JudgePrimed(p ssoP, primed bool) c05Verdict {
+func c05JudgePrimed(p ssoP, primed int) c05Verdict {
 	w, req, t := ssoBuild(p)
-	if primed {
+	switch primed {
+	case 1:
 		h := p
 		h.Forge, h.Signer = "", ""
 		_, hreq, _ := ssoBuild(h)
 		ssoRun(w, hreq)
+	case 2:
+		// the very same (forged) request was already sent once
+		_, again, _ := ssoBuild(p)
+		ssoRun(w, again)
 	}
 	o := ssoRun(w, req)
 	v := c05Verdict{Accepted: o.Accepted}
@@ -185,7 +190,7 @@ func init() { Registry["C05"] = runC05 }
 func runC05(ctx Ctx) int {
 	world.PinClock()
 	run := ev.NewRun("C05")
-	run.Rule = "full product of 50 signing configurations x every valid (base message, forgery operator) pair x deviation-bounded variation of 10 further message dimensions; one execution = fresh provider + one real SSO request; every forged message is additionally sent after its genuine counterpart on the same provider (history of depth 2); accepted := CreateAuthRequest in the storage call log; oracle: accepted and (required or carries a signature value) implies the honest signature is intact and the fields handed to storage equal the signed projection"
+	run.Rule = "full product of 50 signing configurations x every valid (base message, forgery operator) pair x deviation-bounded variation of 10 further message dimensions; one execution = fresh provider + one real SSO request; every forged message is additionally sent after its genuine counterpart and after an identical copy of itself on the same provider (histories of depth 2); accepted := CreateAuthRequest in the storage call log; oracle: accepted and (required or carries a signature value) implies the honest signature is intact and the fields handed to storage equal the signed projection"
 	run.Assume = []string{"RSA keys only; forgery operators are the listed ones (singly); signature wrapping variants beyond the two XSW shapes are outside", "pairs of forgery operators are not composed; breadth comes from crossing each operator with configuration and message-shape dimensions"}
 	if ctx.Replay != "" {
 		var c c05Case
@@ -248,12 +253,14 @@ func runC05(ctx Ctx) int {
 			run.Violate(v.Clause, "sso", c05Labels(it.p, it.base), v.Detail, c05Case{P: it.p})
 		}
 		if kind == "forged" {
-			vp := c05JudgePrimed(it.p, true)
-			run.Evaluations.Add(1)
-			run.Transitions.Add(2)
-			run.Outcome(req + "/forged-after-genuine/" + vp.Class)
-			if vp.Clause != "" {
-				run.Violate(vp.Clause, "sso", append(c05Labels(it.p, it.base), "history=after-genuine-request"), vp.Detail, c05Case{P: it.p, Primed: true})
+			for mode, name := range map[int]string{1: "after-genuine-request", 2: "after-the-same-request"} {
+				vp := c05JudgePrimed(it.p, mode)
+				run.Evaluations.Add(1)
+				run.Transitions.Add(2)
+				run.Outcome(req + "/forged-" + name + "/" + vp.Class)
+				if vp.Clause != "" {
+					run.Violate(vp.Clause, "sso", append(c05Labels(it.p, it.base), "history="+name), vp.Detail, c05Case{P: it.p, Primed: mode})
+				}
 			}
 		}
 	})
